@@ -24,11 +24,7 @@ pub fn alphabet() -> Vec<char> {
     for cp in 0x01u32..0x80 {
         v.push(char::from_u32(cp).unwrap());
     }
-    for (lo, hi) in [(0xFF61u32, 0xFF9F), (0x3041, 0x3093), (0x30A1, 0x30F6)] {
-        for cp in lo..=hi {
-            v.push(char::from_u32(cp).unwrap());
-        }
-    }
+    v.extend(crate::subcodec::non_ascii());
     v
 }
 
